@@ -104,6 +104,7 @@ CharacterizeFails(e) ==
            ELSE {})
      \cup
      IF ~IsNucWord(w) THEN {"S:C05Precondition"}
+     ELSE IF \E i \in 1..Len(e.cands) : Len(e.cands[i].toks) = 0 THEN {"S:PatternOutsideModel"}    \* a candidate's pattern is not in the modelled language
      ELSE IF e.res.exc = ""
           THEN Chk("C05:CharacterizeReturnsAcceptingCandidate",
                    /\ e.res.valid
